@@ -42,7 +42,23 @@ type c14Case struct {
 	// the read that returns it and Close are concurrent. Whether the server gets to read it is the scheduler's choice;
 	// if it did read it (the scripted socket knows), it must dispatch it like any other.
 	CloseRace bool `json:"close_race,omitempty"`
+	// Logger: the documented logging configurations (0 default, 1 short-summary logger, 2 debug logger, 3 a caller's own
+	// Logger); what is logged is not asserted, but dispatching does not depend on it
+	Logger int `json:"logger,omitempty"`
 }
+
+// c14Sink formats what it is given (so that the loggers' formatting code runs) and discards it.
+type c14Sink struct{}
+
+func (c14Sink) Printf(format string, v ...interface{}) { _ = fmt.Sprintf(format, v...) }
+
+type c14OwnLogger6 struct{ c14Sink }
+
+func (c14OwnLogger6) PrintMessage(prefix string, m *dhcpv6.Message) { _ = prefix }
+
+type c14OwnLogger4 struct{ c14Sink }
+
+func (c14OwnLogger4) PrintMessage(prefix string, m *dhcpv4.DHCPv4) { _ = prefix }
 
 type c14Call struct {
 	serial     int
@@ -120,7 +136,11 @@ var c14 = newChk("C14", "dispatch",
 						return
 					}
 					handle(serial6(m), m.ToBytes, func() string { return fmt.Sprintf("%T %v", peer, peer) })
-				}, server6.WithConn(conn))
+				}, append([]server6.ServerOpt{server6.WithConn(conn)}, map[int][]server6.ServerOpt{
+					1: {server6.WithLogger(server6.ShortSummaryLogger{Printfer: c14Sink{}})},
+					2: {server6.WithLogger(server6.DebugLogger{Printfer: c14Sink{}})},
+					3: {server6.WithLogger(c14OwnLogger6{})},
+				}[c.Logger%4]...)...)
 				if err != nil {
 					panic(err)
 				}
@@ -135,7 +155,11 @@ var c14 = newChk("C14", "dispatch",
 						return
 					}
 					handle(serial4(m), m.ToBytes, func() string { return fmt.Sprintf("%T %v", peer, peer) })
-				}, server4.WithConn(conn))
+				}, append([]server4.ServerOpt{server4.WithConn(conn)}, map[int][]server4.ServerOpt{
+					1: {server4.WithLogger(server4.ShortSummaryLogger{Printfer: c14Sink{}})},
+					2: {server4.WithLogger(server4.DebugLogger{Printfer: c14Sink{}})},
+					3: {server4.WithLogger(c14OwnLogger4{})},
+				}[c.Logger%4]...)...)
 				if err != nil {
 					panic(err)
 				}
@@ -360,7 +384,7 @@ func c14Tag(v6 bool, b []byte, serial int) []byte {
 
 func genC14() *rapid.Generator[c14Case] {
 	return rapid.Custom(func(t *rapid.T) c14Case {
-		c := c14Case{V6: rapid.Bool().Draw(t, "v6"), CloseAt: -1}
+		c := c14Case{V6: rapid.Bool().Draw(t, "v6"), CloseAt: -1, Logger: rapid.SampledFrom([]int{0, 0, 1, 2, 3}).Draw(t, "logger")}
 		n := rapid.SampledFrom([]int{0, 1, 2, 3, 5, 8, 13, 30, 80, 200}).Draw(t, "n")
 		// shapes: 0 mixed; 1 mostly malformed (long runs of bad datagrams); 2 every handler stays alive to the end
 		shape := rapid.SampledFrom([]int{0, 0, 0, 0, 1, 2}).Draw(t, "shape")
